@@ -119,7 +119,8 @@ def run(ctx: Ctx) -> None:
     lvar = lh.loop.target.id if isinstance(lh.loop.target, ast.Name) else None
     gets = [n for n in scfg.nodes if n.kind == "stmt" and isinstance(n.stmt, ast.Assign) and isinstance(n.stmt.value, ast.Call) and isinstance(n.stmt.value.func, ast.Attribute) and n.stmt.value.func.attr == "get"
             and norm(n.stmt.value.func.value).endswith(".namespaces")]
-    other_idiom = any((isinstance(x, ast.Subscript) and isinstance(x.ctx, ast.Load) and norm(x.value).endswith(".namespaces")) or
+    ns_alias = {t.id for x in ast.walk(fn) if isinstance(x, ast.Assign) and norm(x.value).endswith(".namespaces") for t in x.targets if isinstance(t, ast.Name)}
+    other_idiom = any((isinstance(x, ast.Subscript) and isinstance(x.ctx, ast.Load) and (norm(x.value).endswith(".namespaces") or (isinstance(x.value, ast.Name) and x.value.id in ns_alias))) or
                       (isinstance(x, ast.Call) and isinstance(x.func, ast.Attribute) and x.func.attr in ("setdefault", "__getitem__") and norm(x.func.value).endswith(".namespaces")) or
                       (isinstance(x, ast.Compare) and any(isinstance(o, (ast.In, ast.NotIn)) for o in x.ops) and any(norm(c_).endswith(".namespaces") for c_ in x.comparators))
                       for x in ast.walk(fn))
@@ -170,7 +171,8 @@ def run(ctx: Ctx) -> None:
         ctx.ob("R12.4", "simple:SimpleCxxVisitor.on_namespace_start|walk starts at the enclosing scope", init_ok and bool(pdefs),
                msg=f"`{parent_var}` may start somewhere other than {st_param}.parent.user_data (e.g. the global scope): a namespace nested in another is filed under the wrong parent", node=fn, mod=sm)
         binds = [n for n in scfg.nodes if n.kind == "stmt" and isinstance(n.stmt, ast.Assign) and attr_chain(n.stmt.targets[0]) == (st_param, "user_data")]
-        good = len(binds) == 1 and isinstance(binds[0].stmt.value, ast.Name) and binds[0].stmt.value.id == nsv and not scfg.paths_avoiding(scfg.entry, scfg.exit, lambda x: x is binds[0])
+        # the innermost scope is the lookup variable or, since every iteration descends into it, the cursor
+        good = len(binds) == 1 and isinstance(binds[0].stmt.value, ast.Name) and binds[0].stmt.value.id in (nsv, parent_var) and not scfg.paths_avoiding(scfg.entry, scfg.exit, lambda x: x is binds[0])
         ctx.ob("R12.4", "simple:SimpleCxxVisitor.on_namespace_start|state bound to the innermost scope", good, msg="state.user_data is not the innermost found-or-created scope on every path", node=fn, mod=sm)
 
     # ---------------------------------------------------------------- R12.5
